@@ -270,6 +270,8 @@ PROPS = {
     "C08": dict(
         mc=[dict(module="MC_C08T", heap="10g", actions=["Return", "Call", "Finish"]), dict(module="MC_C07"), dict(module="MC_C17"), dict(module="MC_C16"), dict(module="MC_C18"), dict(module="MC_C20", tiers=("thorough",))] + POOL, post=pool_post("C08", 4000, 60000), judge="Judge_C08", want=["det"], node=False, case_timeout=8.0,
         proofs=["TypeResolveProofs"],
+        technique="explicit TLA+ spec; TLC model checking (incl. liveness of TypeResolve.tla) + spec->impl replay + impl->spec trace "
+                  "validation; the depth guard of TypeResolve.tla additionally proved unbounded with the TLA+ proof system (tlapm)",
         rule="TLC model-checks TypeResolve.tla (the type-resolution stack machine with its depth bound) over every declaration graph "
              "on three names (2 197 graphs: literal / alias / intersection bodies) — liveness `Termination`, safety `ReportsCycles`, "
              "`DepthBounded`, `NoOverflow` — and every graph is replayed on the real resolveType (cycle reported iff reachable; the "
